@@ -175,16 +175,29 @@ Definition mixed (g : graph) (n : nat) (x : node) (ms : list nat) : graph :=
   let ms' := filter (fun m => negb (Nat.eqb m n)) ms in
   g_mod (if n_linkback x then fold_left (fun acc m => g_mod acc m (add_child n)) ms' g else g) n (add_mix ms').
 
+Definition nself (n : nat) (ms : list nat) : list nat := filter (fun m => negb (Nat.eqb m n)) ms.
+
+(* the three ways add_mixins can go: nothing to add; added, then _update; refused / invalid (/ stuck) *)
 Lemma do_add_mixins_cases : forall g n ms,
-  (exists x, g_get g n = Some x /\ valid_ids g ms = true /\ n_locked x = false /\ wf_b (mixed g n x ms) = true /\
-             do_add_mixins g n ms = (mixed g n x ms, Done)) \/
-  (snd (do_add_mixins g n ms) <> Done /\ snd (do_add_mixins g n ms) <> Stuck /\ fst (do_add_mixins g n ms) = g).
+  (exists x, g_get g n = Some x /\ n_locked x = false /\ nself n ms = [] /\ do_add_mixins g n ms = (g, Done)) \/
+  (exists x g', g_get g n = Some x /\ valid_ids g ms = true /\ n_locked x = false /\ nself n ms <> [] /\
+                wf_b (mixed g n x ms) = true /\ upd (length g) (mixed g n x ms) n = Some g' /\
+                do_add_mixins g n ms = (g', Done)) \/
+  (snd (do_add_mixins g n ms) <> Done /\ fst (do_add_mixins g n ms) = g /\
+   (snd (do_add_mixins g n ms) = Stuck ->
+      exists x, g_get g n = Some x /\ wf_b (mixed g n x ms) = true /\ upd (length g) (mixed g n x ms) n = None)).
 Proof.
-  intros. unfold do_add_mixins. destruct (g_get g n) eqn:E; [|right; cbn; repeat split; congruence].
-  destruct (valid_ids g ms) eqn:V; cbn [negb]; [|right; cbn; repeat split; congruence].
-  destruct (n_locked n0) eqn:Lk; [right; cbn; repeat split; congruence|].
-  fold (mixed g n n0 ms). destruct (wf_b (mixed g n n0 ms)) eqn:W; [|right; cbn; repeat split; congruence].
-  left. exists n0. auto.
+  intros. unfold do_add_mixins. destruct (g_get g n) eqn:E; [|right; right; cbn; repeat split; congruence].
+  destruct (valid_ids g ms) eqn:V; cbn [negb]; [|right; right; cbn; repeat split; congruence].
+  destruct (n_locked n0) eqn:Lk; [right; right; cbn; repeat split; congruence|].
+  unfold mixed. fold (nself n ms). destruct (nself n ms) as [|m1 mr] eqn:F.
+  - left. exists n0. auto.
+  - set (g2 := g_mod (if n_linkback n0 then fold_left (fun acc m => g_mod acc m (add_child n)) (m1 :: mr) g else g) n
+                     (add_mix (m1 :: mr))).
+    destruct (wf_b g2) eqn:W; [|right; right; cbn; repeat split; congruence].
+    destruct (upd (length g) g2 n) as [g'|] eqn:U.
+    + right. left. exists n0, g'. repeat split; auto. congruence.
+    + right. right. cbn. repeat split; try congruence. intros _. exists n0. auto.
 Qed.
 
 Lemma mixed_rel : forall g n x ms, g_get g n = Some x ->
@@ -295,8 +308,17 @@ Qed.
 
 Lemma Inv_do_add_mixins : forall g n ms, Inv g -> Inv (fst (do_add_mixins g n ms)).
 Proof.
-  intros. destruct (do_add_mixins_cases g n ms) as [(x & E & V & Lk & W & ->)|(_ & _ & ->)]; auto.
-  cbn. apply Inv_mixed; auto.
+  intros. destruct (do_add_mixins_cases g n ms) as [(x & E & Lk & F & ->)|[(x & g' & E & V & Lk & F & W & U & ->)|(_ & -> & _)]]; auto.
+  cbn. eapply Inv_gkeep; [apply (upd_spec _ _ _ _ U)|]. apply Inv_mixed; auto.
+Qed.
+
+Lemma mixed_upd_some : forall g n x ms, Inv g -> g_get g n = Some x -> wf_b (mixed g n x ms) = true ->
+  exists g', upd (length g) (mixed g n x ms) n = Some g'.
+Proof.
+  intros g n x ms I E W. pose proof (Inv_mixed g n x ms I E W) as I2.
+  destruct (mixed_rel g n x ms E) as [L _]. rewrite <- L. apply upd_some.
+  - intros k Lk. apply inv_mterm; auto.
+  - apply inv_cterm; auto. rewrite L. eapply g_get_lt; eauto.
 Qed.
 
 Lemma Inv_do_use : forall g n, Inv g -> Inv (fst (do_use g n)).
@@ -366,7 +388,8 @@ Proof.
     destruct o1; cbn; try congruence.
     pose proof (do_register_not_stuck g1 (length g) sig l I1) as N2.
     destruct (do_register g1 (length g) sig l) as [g2 o2]. cbn in N2. destruct o2; cbn; congruence.
-  - destruct (do_add_mixins_cases g n ms) as [(x & E & V & Lk & W & ->)|(_ & N & _)]; cbn; auto. congruence.
+  - destruct (do_add_mixins_cases g n ms) as [(x & E & Lk & F & ->)|[(x & g' & E & V & Lk & F & W & U & ->)|(_ & _ & S)]]; cbn; try congruence.
+    intros Q. destruct (S Q) as (x & E & W & U). destruct (mixed_upd_some g n x ms I E W) as [g' U']. congruence.
   - apply do_register_not_stuck; auto.
   - apply do_modify_not_stuck; auto. + intros; congruence. + intros t t' H. injection H as <-. apply nodup_t_remove.
   - unfold do_use. destruct (g_get g n) eqn:E; [|cbn; congruence]. destruct (n_compiled n0); [cbn; congruence|].
